@@ -1467,7 +1467,9 @@ def r8(ctx):
                   f"{', '.join(t for _, t in bad)} takes the rendered IN list apart at a separator that can occur inside an item: "
                   f"with a type that has a bind_expression, `x IN ('a, b', 'c')` rendered by literal_execute becomes "
                   f"`IN (lower('a), lower(b'), lower('c'))` (still valid SQL, other rows), and a bound item rendered with a cast "
-                  f"like `CAST(? AS NUMERIC(10, 2))` is cut in two; the literal and the bound form no longer agree with the "
+                  f"like `$1::NUMERIC(10, 2)` is cut in two (`round($1::NUMERIC(10), round(2))`), and for an EMPTY list the empty-set "
+                  f"text `NULL) AND (1 != 1` is treated as one item: `x IN (lower(NULL) AND (1 != 1))` (SQLite: "
+                  f"`IN (lower(SELECT 1 ...))`, a syntax error); the literal and the bound form no longer agree with the "
                   f"OR-of-equalities.  The items must come from the renderer (cf. bind_expression_template on the compile-time path)",
                   f"text names {sorted(texts)} / containers {sorted(boxes)} are only spliced whole",
                   f"{f.module.path}:{bad[0][0].lineno}" if bad else f.loc)
@@ -1864,7 +1866,7 @@ R.mutant("benign-r4-bound-scalar-arm-loop-variable-renamed-and-guard-on-expand-o
 _PE = ("            if m.group(2):\n                tok = m.group(2).split(\"~~\")\n                be_left, be_right = tok[1], tok[3]\n"
        "                expr = \", \".join(\n                    \"%s%s%s\" % (be_left, exp, be_right)\n"
        "                    for exp in expr.split(\", \")\n                )\n            return expr\n")
-R.mutant("r8-preview-fix-items-come-from-the-renderer", COMP,
+R.mutant("benign-r8-preview-fix-items-come-from-the-renderer", COMP,
          chain(sub("                    to_update_sets[escaped_name] = to_update\n",
                    "                    to_update_sets[escaped_name] = to_update\n                    expanded_values[escaped_name] = (parameter, values)\n"),
                sub("        replacement_expressions: Dict[str, Any] = {}\n",
